@@ -322,7 +322,15 @@ Record pcfg := mkpcfg {
   p_poly : bool;                 (* XmlDocument(polymorphic=...) *)
   p_parse_xsi : bool;            (* XmlDocument(parse_xsi_type=...) *)
   p_pm : text -> text;           (* Interface.get_namespace_prefix *)
-  p_reg : registry }.            (* Interface.classes *)
+  p_reg : registry;              (* Interface.classes *)
+  p_unres : list (text * text) }.
+  (* (namespace, name) of the Array-typed members whose Array class has no namespace: the namespace of an
+     Array(T) class is assigned (global, on the class object) when resolve_namespace reaches the class that
+     declares the member -- message classes, everything add_class visits, their direct subclasses and what
+     those refer to.  A member declared in a class no application ever reached (e.g. below a subclass placed
+     in another namespace) keeps None and its items are written without a namespace.  That reachability is
+     not modelled: the list is an input of every case, read from the implementation's classes; the theorems
+     hold for any list, from_element does not look at the names of array items. *)
 
 Definition colon : Z := 58.
 
@@ -333,6 +341,11 @@ Section XmlPoly.
   Variable U : universe.
 
   Definition xc : xcfg := mkxcfg (p_soft C) (Some (p_tns C)) (p_poly C) (fun _ => None).
+
+  (** cls.get_namespace() of the Array class serialised as element {ns}name *)
+  Definition item_ns (ns name : text) (e : ty) : text :=
+    if existsb (fun p : text * text => text_eqb (fst p) ns && text_eqb (snd p) name) (p_unres C) then []
+    else arr_ns xc U e.
 
   (** cls.get_type_name_ns(interface) and the declaration that goes with it *)
   Definition type_marker (d : cid) : list attr :=
@@ -376,7 +389,7 @@ Section XmlPoly.
         | VList xs =>
             match t with
             | TArr e =>                                                    (* Array: one unbounded member *)
-                do kids <- mapM (penc k e (arr_ns xc U e) (type_name U e)) xs;
+                do kids <- mapM (penc k e (item_ns ns name e) (type_name U e)) xs;
                 Ok (XElt ns name [] None kids)
             | _ => Crash TypeError
             end
